@@ -482,5 +482,9 @@ func TestC01(t *testing.T) {
 		parallelCases(vlib.Scale(30, 600), 2, func(i int) { c01Concurrent(ev, driver, i) })
 	}
 	<-binDone
+	for _, driver := range vlib.Drivers() {
+		driver := driver
+		parallelCases(vlib.Scale(12, 300), 4, func(i int) { contractEconomy(ev, "C01", driver, i) })
+	}
 	finish(t, ev)
 }
